@@ -96,8 +96,7 @@ Section Oracles.
     | Some vs =>
       forallb (fun v => match lookup_of c (owner v) with
                         | Some (LTVer v') => ver_eqb v v'
-                        | Some _ => false
-                        | None => true
+                        | _ => true        (* not looked up by name, or that lookup failed (the bulk lookup retried it) *)
                         end) vs
       && forallb (fun f => forallb (fun v => forallb (fun b => negb (Nat.eqb (owner b) (owner v)) || ver_eqb b v) vs) (snd f))
                  point_fields
